@@ -12,6 +12,8 @@ FILES = [
     "lerax/algorithm/ppo.py", "lerax/algorithm/a2c.py", "lerax/algorithm/reinforce.py",
     "lerax/algorithm/dqn.py", "lerax/algorithm/sac.py", "lerax/algorithm/on_policy.py",
     "lerax/algorithm/off_policy.py", "lerax/algorithm/base_algorithm.py", "lerax/policy/actor_critic/mlp.py", "lerax/utils.py", "lerax/callback/logging/callback.py", "lerax/benchmark/__init__.py",
+    "lerax/wrapper/transform_action.py", "lerax/wrapper/transform_observation.py", "lerax/wrapper/transform_reward.py", "lerax/wrapper/misc.py",
+    "lerax/wrapper/utils.py", "lerax/wrapper/base_wrapper.py", "lerax/compatibility/gym.py", "lerax/compatibility/gymnax.py", "lerax/env/base_env.py",
 ]
 PROPS_OF = {
     "lerax/buffer/rollout.py": ["C03", "C09"], "lerax/buffer/replay.py": ["C06"], "lerax/buffer/base_buffer.py": ["C09", "C06"],
@@ -19,6 +21,9 @@ PROPS_OF = {
     "lerax/algorithm/dqn.py": ["C07", "C10"], "lerax/algorithm/sac.py": ["C07", "C10"],
     "lerax/algorithm/on_policy.py": ["C03", "C04", "C10", "C19"], "lerax/algorithm/off_policy.py": ["C05", "C10", "C19"],
     "lerax/algorithm/base_algorithm.py": ["C10", "C11"], "lerax/policy/actor_critic/mlp.py": ["C04", "C16"], "lerax/utils.py": ["C04", "C18", "C19"], "lerax/callback/logging/callback.py": ["C19", "C11"], "lerax/benchmark/__init__.py": ["C19"],
+    "lerax/wrapper/transform_action.py": ["C13"], "lerax/wrapper/transform_observation.py": ["C13"], "lerax/wrapper/transform_reward.py": ["C13"],
+    "lerax/wrapper/misc.py": ["C13", "C01"], "lerax/wrapper/utils.py": ["C13"], "lerax/wrapper/base_wrapper.py": ["C13"],
+    "lerax/compatibility/gym.py": ["C13", "C14", "C01"], "lerax/compatibility/gymnax.py": ["C13"], "lerax/env/base_env.py": ["C01", "C13"],
 }
 
 
